@@ -93,9 +93,12 @@ def run(ctx):
                    site='%s:%d' % (b.file, b.line))
         ctx.floor('construction sites consulting requires_vertex_links_at_completion', 2, m, cfg)
     import c08
+    import idkeep
+    ctx.rule('IDENT', 'vertices re-created during construction (perturbation retry) keep the input UUID and data')
     for cfg in ctx.cfgs:
         prog = ctx.prog(cfg)
         c08._postorient(ctx, cfg, prog, gate.Leaves(prog), constructors=True)
+        idkeep.check(ctx, cfg, prog, ctx.mod(cfg), 'IDENT', lambda o: o.rsplit('::', 1)[-1] == 'insert_transactional', 1)
     ctx.note('TopologyGuarantee::Pseudomanifold has no Level-3 gate at completion (relies on ValidationPolicy::DebugOnly, '
              'i.e. nothing in release): observation, not a rule')
     return ctx.finish(EXPLANATION)
